@@ -13,6 +13,7 @@ import anncases
 import annhist
 import annmodel
 import core
+import targets
 import workflow
 
 PROP = "C10"
@@ -248,7 +249,10 @@ def run_property(ctx: core.Ctx, prop: str, prefixes: tuple, rich: bool) -> int:
         # Workflow.tla: annotate interleaved with download / lint / spdx, abstract state compared after every command
         wf = workflow.stage(ctx, prefixes)
         mc_viol += wf["mc_violations"]
-        n_wf = len(wf["events"])
+        # Targets.tla: where the header of a file goes (file / sibling / nowhere), the whole table replayed
+        tg = targets.stage(ctx, prefixes)
+        mc_viol += tg["mc_violations"]
+        n_wf = len(wf["events"]) + len(tg["events"])
     return ctx.finish(
         evaluations=len(events) + n_wf,
         distinct_nontrivial=len({e["label"] for e in events if e["exit"] == 0}),
